@@ -301,7 +301,12 @@ def run_one(case):
         elif f == "flip":
             x = label(shape, cplx)
             ref = ref_flip(x, case["axes"])
-            if via == "func":
+            if via == "func" and case["axes"] is not None and sum(case["rs"]) % 5 == 3:
+                # axes handed over as a one-shot iterator (map / generator / reversed list)
+                it_ = [iter(list(case["axes"])), (int(a) for a in case["axes"]),
+                       map(int, case["axes"])][sum(case["rs"]) % 3]
+                got = sp.flip(x, it_)
+            elif via == "func":
                 got = sp.flip(x, V(case["axes"]))
             else:
                 op = L.Flip(V(shape), axes=V(case["axes"]))
@@ -342,8 +347,20 @@ def run_one(case):
                     got = op(x)
             else:
                 nb = nblocks(shape, b, s)
-                x = label(batch + nb + b, cplx)
-                ref = ref_b2a(x, len(batch), shape, b, s)
+                surplus = via == "func" and sum(case["rs"]) % 4 == 3
+                if surplus:
+                    # more blocks than fit entirely (overlap-add of a zero-padded record,
+                    # cropped by asking for the original shape): the part of an overhanging
+                    # block that lies inside the output is still summed into place
+                    extra = [int(1 + (sum(case["rs"]) + d_) % 2) for d_ in range(len(nb))]
+                    nb2 = [n_ + e_ for n_, e_ in zip(nb, extra)]
+                    x = label(batch + nb2 + b, cplx)
+                    bigN = [(n_ - 1) * s_ + b_ for n_, s_, b_ in zip(nb2, s, b)]
+                    refbig = ref_b2a(x, len(batch), bigN, b, s)
+                    ref = refbig[(Ellipsis,) + tuple(slice(0, n_) for n_ in shape)]
+                else:
+                    x = label(batch + nb + b, cplx)
+                    ref = ref_b2a(x, len(batch), shape, b, s)
                 if via == "func":
                     got = sp.blocks_to_array(x, V(batch + shape), V(b), V(s))
                 else:
